@@ -2,6 +2,7 @@ package interpreter
 
 import (
 	. "github.com/glyphlang/glyph/pkg/ast"
+	"reflect"
 
 	"fmt"
 	"math"
@@ -510,8 +511,19 @@ func (i *Interpreter) evaluateEq(left, right interface{}) (interface{}, error) {
 		return coercedLeft == coercedRight, nil
 	}
 
+	// Arrays and objects have no value equality (the VM reports them as
+	// unequal too); comparing them with Go's == would panic at run time.
+	if !isComparable(left) || !isComparable(right) {
+		return false, nil
+	}
+
 	// For non-numeric types, compare directly
 	return left == right, nil
+}
+
+// isComparable reports whether Go's == may be applied to v
+func isComparable(v interface{}) bool {
+	return v == nil || reflect.TypeOf(v).Comparable()
 }
 
 // evaluateNe handles inequality comparison
